@@ -108,6 +108,10 @@ def impl_case(c):
         if len(objs) % 3 == 2:
             # any iterable of tracks (a generator here), each track any iterable of messages (a tuple here)
             return mido.merge_tracks((tuple(t) for t in objs), skip_checks=(mode == 'skip'))
+        if len(objs) % 3 == 1 and sum(len(t) for t in objs) % 2 == 1:
+            # each track a one-shot iterable (a generator, iter(), filter()): every track is read once, from start to end
+            its = [((m for m in t) if i % 3 == 0 else (iter(list(t)) if i % 3 == 1 else filter(None, list(t)))) for i, t in enumerate(objs)]
+            return mido.merge_tracks(its, skip_checks=(mode == 'skip'))
         return mido.merge_tracks(objs, skip_checks=(mode == 'skip'))
     try:
         res = merge()
